@@ -97,7 +97,13 @@ fn one_case(ctx: &Ctx, case: u64, l: &mut Local) {
     let profile = PROFILES[(case % 13) as usize];
     let mut g = GenCfg::new(profile, *r.pick(&[6, 15, 30]), api::now());
     g.safe_names = true;
-    let u = gen::gen_claims(&mut r, &g);
+    let mut u = gen::gen_claims(&mut r, &g);
+    if r.chance(35) {
+        // `iat` is an ordinary always-visible claim for the issuer: give it a structured value so
+        // that planting positions exist inside an always-revealed claim as well
+        let inner = gen::gen_claims(&mut r, &GenCfg::new(profile, 5, api::now()));
+        u["iat"] = if r.chance(50) { inner } else { json!([inner, 1]) };
+    }
     let sites = count_sites(&u);
     let strategies = [
         gen::gen_strategy(&mut r, &u, StratKind::NoSD),
